@@ -299,7 +299,10 @@ Definition encode_base64 (s : string) : string :=
    that contains a line feed as a literal block scalar whenever its analysis allows a block scalar; a literal
    block whose first character is a TAB is then rejected by go-yaml's own scanner ("found a tab character
    where an indentation space is expected"). [yaml_block_allowed] follows yaml_emitter_analyze_scalar
-   (block_allowed = not (trailing_space || space_break || special_characters)) for valid UTF-8 input. *)
+   (block_allowed = not (trailing_space || space_break || special_characters)) for valid UTF-8 input.
+   Since the repair baa93c5 "a generated ConfigMap value that starts with a TAB and spans several lines is written
+   double-quoted" (makeConfigMapValueRNode) no generated value takes that path any more: [yaml_rt_fails] is kept
+   as the description of go-yaml's behaviour but is no longer consulted by [hash_content]. *)
 
 Definition yaml_break_at (n : N) (r : string) : bool :=
   (n =? 10) || (n =? 13) ||
@@ -396,7 +399,7 @@ Definition encode_content (c : content) : string :=
 
 (* the YAML text of the map cannot be read back *)
 Definition entries_rt_fail (m : list (string * string)) : bool :=
-  existsb (fun kv => yaml_rt_fails (snd kv) || yaml_merge_key (fst kv)) m.
+  existsb (fun kv => yaml_merge_key (fst kv)) m.
 
 Definition content_rt_fails (c : content) : bool :=
   (match ct_data c with None => false | Some m => entries_rt_fail m end) ||
